@@ -424,7 +424,24 @@ def r19_6(ctx):
                '%s is closed by the parent but never given to the child' % e)
 
 
+
+def r19_8(ctx):
+    ctx.rule('R19.8', 'the fork-server launcher reads the status pipe only while no code is cached, and "cached" means '
+                      '`is not None`: a cached 0 is a code (tested by truth it is read again -- at end of file -- and '
+                      'becomes 255)', floor=2)
+    m = ctx.model
+    fi = m.func('popen_forkserver:Popen.poll')
+    reads = [n for (n, c) in q.calls(fi, lambda t: t.endswith('read_unsigned'))]
+    waits = [n for (n, c) in q.calls(fi, lambda t: t == 'wait' or t.endswith('.wait'))]
+    q.need(reads, 'forkserver Popen.poll does not read the status')
+    for what, nodes in (('read', reads), ('wait', waits)):
+        ok = bool(nodes) and all(q.has_guard(fi, n, 'self.returncode is None', True) for n in nodes)
+        ctx.ob('R19.8', 'forkserver.poll:%s-only-while-no-code-is-cached' % what, ok, fi, nodes[0] if nodes else None,
+               'under `self.returncode is None`')
+
+
 def run(ctx):
+    r19_8(ctx)
     r19_7(ctx)
     r19_5(ctx)
     r19_6(ctx)
@@ -437,6 +454,7 @@ def run(ctx):
 _PF = 'billiard/popen_fork.py'
 _PR = 'billiard/process.py'
 MUTANTS = [
+    ('forkserver-poll-tests-the-code-by-truth', 'billiard/popen_forkserver.py', "        if self.returncode is None:\n            from .connection import wait", "        if not self.returncode:\n            from .connection import wait", 'R19.8'),
     ('final-flush-can-raise', _PR, "            _maybe_flush(sys.stdout)\n            _maybe_flush(sys.stderr)\n\n        return exitcode\n",
      "            util._flush_std_streams()\n\n        return exitcode\n", 'R19.1'),
     ('echild-reports-zero', _PF, "                    # Child process not yet created. See #1731717\n                    # e.errno == errno.ECHILD == 10\n                    return None\n",
